@@ -470,17 +470,24 @@ Definition sql_update (d : db) (t : tname) (c : nat) (k : Z) (w : wclause) : db 
         end
   end.
 
+(** [Database::rebuild_indexes(table_name)] -> [IndexManager::rebuild_indexes]: every index whose
+    [metadata.table_name == table_name] is cleared and refilled from the table's current rows *)
+Definition uix_rebuild (U : list uindex) (t : tname) (rows : list row) : list uindex :=
+  map (fun ix => if ix_table ix =? t
+                 then mkIx (ix_name ix) (ix_table ix) (ix_col ix) (idx_build (ix_col ix) 0 rows [])
+                 else ix) U.
+
 (** * DELETE FROM t [WHERE wcol = wk]  (delete/executor.rs).  Without WHERE: [Table::clear] (the
-    truncate fast path).  With WHERE: [Table::delete_where] followed by
-    [Database::rebuild_indexes(&stmt.table_name)], which looks the table up in [tables] by the
-    unqualified name while the map is keyed by "public.T": nothing is rebuilt.  Either way the user
-    indexes keep their old contents, and nothing is recorded. *)
+    truncate fast path).  With WHERE: [Table::delete_where].  Both are followed by
+    [Database::rebuild_indexes(&stmt.table_name)] (since the fix commits 06b958cd / a030085c the
+    table is found under its schema-qualified key and the fast path rebuilds too), also when no row
+    matched.  Nothing is recorded in the change log. *)
 Definition sql_delete (d : db) (t : tname) (w : wclause) : db * result :=
   match get_table (d_tabs d) t with
   | None => (d, RErr)
   | Some tb =>
       let rows' := match w with None => [] | Some _ => filter (fun r => negb (matches w r)) (t_rows tb) end in
-      (mkDb (d_cat d) (set_table (d_tabs d) t (mkTable (t_cols tb) rows')) (d_uix d) (d_tx d),
+      (mkDb (d_cat d) (set_table (d_tabs d) t (mkTable (t_cols tb) rows')) (uix_rebuild (d_uix d) t rows') (d_tx d),
        ROk (count_matching w (t_rows tb)))
   end.
 
@@ -548,11 +555,13 @@ Fixpoint fetch_rows (rows : list row) (ids : list nat) : list row :=
                  end
   end.
 
-(** [SELECT * FROM t WHERE col = k] ([ordered = false]: iterator path, the WHERE clause is applied
-    again to the fetched rows) and [SELECT * FROM t WHERE col = k ORDER BY <unindexed col>]
-    ([ordered = true]: materialised path, [where_filtered] makes the executor trust the index).
+(** [SELECT * FROM t WHERE col = k] ([ordered = false]: iterator path) and
+    [SELECT * FROM t WHERE col = k ORDER BY <unindexed col>] ([ordered = true]: materialised path).
     [should_use_index_scan] picks a storage index whose first column is filtered; without one the
-    table is scanned.  The answer is a bag (the row order is not part of the observation). *)
+    table is scanned.  With an index, the row indices stored under the key are fetched (out-of-range
+    ones skipped) and the WHERE clause is re-checked on the fetched rows in both forms
+    ([execute_index_scan]: [need_where_filter = where_clause.is_some()]; the iterator path filters
+    again anyway).  The answer is a bag (the row order is not part of the observation). *)
 Definition q_point (d : db) (t : tname) (c : nat) (k : Z) (ordered : bool) : option (list row) :=
   match get_table (d_tabs d) t with
   | None => None
@@ -561,7 +570,7 @@ Definition q_point (d : db) (t : tname) (c : nat) (k : Z) (ordered : bool) : opt
       | None => Some (filter (matches (Some (c, k))) (t_rows tb))
       | Some ix =>
           let fetched := fetch_rows (t_rows tb) (idx_lookup (Some k) (ix_data ix)) in
-          Some (if ordered then fetched else filter (matches (Some (c, k))) fetched)
+          Some (filter (matches (Some (c, k))) fetched)
       end
   end.
 
